@@ -569,6 +569,114 @@ def sec_repeat_until(ctx, rng, case):
     ctx.sample({"n": n, "body": P.describe(body), "exit_on": exit_on, "paths": len(ex.paths), "iterations_in_reference": it + 1})
 
 
+def sec_repeat_until_nested(ctx, rng, case):
+    """A repeat_until loop inside a scoped sub-circuit whose exit condition compares the key measured in the loop with a
+    key measured outside the loop, in the same enclosing body: every repetition's loop tests that repetition's own keys
+    (never a same-named key at root scope), exactly like the flattened program."""
+    import cirq
+    import sympy
+
+    n = int(rng.integers(2, 4))
+    dims = (2,) * n
+    qubits = P.make_qubits(rng, dims)
+    mq, eq = (int(x) for x in rng.choice(n, size=2, replace=False))
+    theta = float(rng.uniform(0.35, 0.65))
+    flip = rng.random() < 0.5
+    phi = 1.0 if flip else float(rng.uniform(0.3, 0.7))
+    want_equal = rng.random() < 0.7
+    sa, sc = sympy.Symbol("a"), sympy.Symbol("c")
+    expr = (sympy.Eq(sa, sc) if rng.random() < 0.5 else sympy.Eq(sc, sa)) if want_equal else sympy.Ne(sa, sc)
+    cond = cirq.SympyCondition(expr)
+    scope = str(rng.choice(["repetitions", "repetition_ids", "parent_path", "repetitions+path"]))
+    if scope == "repetitions":
+        okw, prefixes = dict(repetitions=2, use_repetition_ids=True), ["0:", "1:"]
+    elif scope == "repetition_ids":
+        okw, prefixes = dict(repetitions=2, repetition_ids=["x", "y"], use_repetition_ids=True), ["x:", "y:"]
+    elif scope == "parent_path":
+        okw, prefixes = dict(parent_path=("p",)), ["p:"]
+    else:
+        okw, prefixes = dict(repetitions=2, use_repetition_ids=True, parent_path=("p",)), ["p:0:", "p:1:"]
+    root_pre = [P.gen_unitary_step(rng, dims) for _ in range(int(rng.integers(0, 2)))]
+    decoy = rng.random() < 0.7
+    if decoy:
+        root_pre.append({"t": "M", "key": "c", "w": (eq,)})
+    outer_pre = [{"t": "U", "spec": "ry", "p": (phi * np.pi,), "w": (eq,)}, {"t": "M", "key": "c", "w": (eq,)}]
+    body = [{"t": "U", "spec": "ry", "p": (theta * np.pi,), "w": (mq,)}, {"t": "M", "key": "a", "w": (mq,)}]
+    loop = cirq.CircuitOperation(cirq.FrozenCircuit(P.to_moments(body, qubits, rng, "greedy")), repeat_until=cond)
+    inner = cirq.FrozenCircuit(P.to_moments(outer_pre, qubits, rng, "greedy") + [cirq.Moment(loop)])
+    outer = cirq.CircuitOperation(inner, **okw)
+    form = str(rng.choice(["nested", "outer-unrolled"]))
+    mid = [cirq.Moment(outer)] if form == "nested" else list(outer.mapped_circuit(deep=False).moments)
+    post = [{"t": "M", "key": "z", "w": tuple(range(n))}]
+    circuit = cirq.Circuit(P.to_moments(root_pre, qubits, rng, "greedy") + mid + P.to_moments(post, qubits, rng, "greedy"))
+    wit = dict(n=n, scope=scope, form=form, decoy=decoy, condition=repr(cond), theta=theta, phi=phi, mq=mq, eq=eq,
+               root_pre=P.describe(root_pre))
+    # ---- keys: every repetition's c and a under its own path, the root c, z; nothing is left to be bound from outside
+    want_keys = sorted([pfx + k for pfx in prefixes for k in ("a", "c")] + ["z"] + (["c"] if decoy else []))
+    ctx.check(sorted(cirq.measurement_key_names(circuit)) == want_keys, "keys==flat", "C12:nested-until-keys",
+              "%r, expected %r" % (sorted(cirq.measurement_key_names(circuit)), want_keys), **wit)
+    ck = sorted(map(str, cirq.control_keys(circuit)))
+    ctx.check(ck == [], "keys==flat", "C12:nested-until-unbound-control-keys",
+              "the circuit reports control keys %r although every key the loops test is measured inside it" % ck, **wit)
+    # ---- reference: repetition by repetition, pass by pass
+    active = I.run(P.to_ref(root_pre), dims)
+    tail = 0.0
+    passes = 0
+    for pfx in prefixes:
+        active = I.run_branches(active, P.to_ref([dict(s_, key=pfx + "c") if s_["t"] == "M" else s_ for s_ in outer_pre]), dims)
+        body_ref = P.to_ref([dict(s_, key=pfx + "a") if s_["t"] == "M" else s_ for s_ in body])
+        done = {}
+        for _ in range(200):
+            passes += 1
+            nxt = I.run_branches(active, body_ref, dims)
+            active = {}
+            for rec, rho in nxt.items():
+                same = I.latest(rec, pfx + "a")[0] == I.latest(rec, pfx + "c")[0]
+                if same == want_equal:
+                    done[rec] = done[rec] + rho if rec in done else rho
+                else:
+                    active[rec] = rho
+            left = sum(float(np.trace(r).real) for r in active.values())
+            if left < 1e-9:
+                break
+        tail += left
+        active = done
+    ref = I.distribution(I.run_branches(active, P.to_ref(post), dims))
+    kind = ["sv", "sv-nosplit", "dm"][int(rng.integers(3))]
+
+    def run(rng_obj):
+        if kind == "sv":
+            sim = cirq.Simulator(dtype=np.complex128, seed=rng_obj)
+        elif kind == "sv-nosplit":
+            sim = cirq.Simulator(dtype=np.complex128, split_untangled_states=False, seed=rng_obj)
+        else:
+            sim = cirq.DensityMatrixSimulator(dtype=np.complex128, seed=rng_obj)
+        return _records_key(sim.run(circuit, repetitions=1))
+
+    try:
+        ex = SR.explore(run, max_paths=1500, min_branch=1e-9, min_path=1e-6, default_mix=True)
+    except ValueError as e:
+        from vf.worker import _blame
+        if _blame(e)[0] != "repo":
+            raise
+        ctx.check(False, "distribution==flat", "C12:nested-until-raised:" + type(e).__name__, "%s" % e, **wit)
+        return
+    if ex.over_budget:
+        ctx.event("explorer-over-budget")
+        return
+    got = ex.distribution()
+    tv = L.tv_distance(got, ref)
+    slack = ex.cut_mass + tail + 1e-6
+    ctx.check(tv <= slack, "distribution==flat", "C12:nested-until-distribution:" + kind,
+              lambda: "nested loop outcome distribution differs from the repetition-by-repetition reference by TV %.3g (allowed %.3g)" % (tv, slack), **wit)
+    ctx.event("nested-until-paths", len(ex.paths))
+    ctx.event("nested-until:" + scope + ":" + form)
+    ctx.distinct((scope, form, decoy, want_equal, round(theta, 3), round(phi, 3), mq, eq, kind, tuple(P.describe(root_pre))),
+                 nontrivial=len(ref) >= 3)
+    ctx.sample({"n": n, "scope": scope, "form": form, "decoy": decoy, "paths": len(ex.paths), "reference_passes": passes,
+                "cut_mass": ex.cut_mass})
+
+
 def sec_symbolic_reps(ctx, rng, case):
     """a sub-circuit whose repetition count is a symbol (or is replaced later): whatever was asked of the operation before,
     the resolved operation applies the body - or, for a negative count, its inverse - that many times"""
@@ -634,5 +742,6 @@ SECTIONS = [
     ("single_qubit", sec_single_qubit, 900, 15000, 0.5),
     ("shadow", sec_shadow, 2500, 50000, 3.0),
     ("repeat_until", sec_repeat_until, 500, 10000, 2.0),
+    ("repeat_until_nested", sec_repeat_until_nested, 300, 6000, 2.0),
     ("symbolic_reps", sec_symbolic_reps, 700, 12000, 1.0),
 ]
